@@ -49,6 +49,8 @@ def run(ck):
             for cap in caps:
                 cases.append("slice %s %s" % (hexs([0xA0 + i for i in range(cap)]), h))
         cases.append("vec - " + h)
+        for spare in (1, 2, 5):
+            cases.append("vec -+%d %s" % (spare, h))       # the caller's vector has spare capacity
     n_exh = len(cases)
     # input sources: all read/peek sequences
     ralpha = ["p1", "r1"] + ["pk %d" % k for k in range(4)] + ["rk %d" % k for k in range(4)]
@@ -76,13 +78,17 @@ def run(ck):
                 ops.append("wr %d %s" % (rng.randrange(0, nres + 1), data))
         h = " ; ".join(ops)
         cases.append(("slice %s %s" % (hexs([rng.randrange(256) for _ in range(cap)]), h)) if rng.random() < 0.6
-                     else ("vec %s %s" % (hexs([rng.randrange(256) for _ in range(rng.choice([0, 3]))]), h)))
-    m = core.run_model("buffer", cases, chunk=20000, timeout=600)
+                     else ("vec %s%s %s" % (hexs([rng.randrange(256) for _ in range(rng.choice([0, 3]))]), rng.choice(["", "", "+1", "+7", "+64", "+300", "+5000"]), h)))
+    # the model has no notion of capacity for the growable target: it sees the same history without the spare-capacity mark
+    import re as _re
+    m = core.run_model("buffer", [_re.sub(r"^vec (\S+?)\+\d+ ", r"vec \1 ", c) for c in cases], chunk=20000, timeout=600)
     o = core.run_impl("buffer", cases, chunk=20000, timeout=600)
 
     def classify(c, mo, oo):
         if "GUARD-OVERWRITTEN" in oo:
             return "guard-overwritten", {}
+        if "LENGTH-EXCEEDS-CAPACITY" in oo:
+            return "vector-longer-than-its-allocation", {}
         if oo.startswith(("crash", "panic")):
             return "crash", {}
         # first differing step
@@ -100,11 +106,11 @@ def run(ck):
     for i in spec_bad[:3]:
         ck.violation("histories", "model-vs-spec", cases[i], "model = specification log (theorem C12_slice_refines_log)", m[i], kind="correspondence")
     ck.stream("histories", description="lock-step histories: result, position, contents (with guard bytes) and reservation ranges after every operation; model and append-only-log specification run side by side",
-              exhaustive_part="all %d^%d op sequences x capacities 0..4 (slice) and vec; all %d^%d read/peek sequences x buffer lengths 0..4" % (len(alpha), L, len(ralpha), L),
+              exhaustive_part="all %d^%d op sequences x capacities 0..4 (slice) and vec with spare capacity 0/1/2/5; all %d^%d read/peek sequences x buffer lengths 0..4" % (len(alpha), L, len(ralpha), L),
               exhaustive_cases=n_exh + n_src, random_cases=nrand)
     ck.extra["exhaustive"] = True
     ck.extra["rule"] = ("bounded-exhaustive: every sequence of %d operations over {write byte, write k, reserve k, write k into reservation r (r in 0..1)} with k in 0..3 on "
-                        "fixed slices of capacity 0..4 and on the growable target (shorter histories are prefixes: every step is observed); every sequence of %d reads/peeks (k in 0..3) "
+                        "fixed slices of capacity 0..4 and on the growable target with spare capacity 0, 1, 2 and 5 (shorter histories are prefixes: every step is observed); every sequence of %d reads/peeks (k in 0..3) "
                         "on sources of length 0..4; plus %d random histories of up to 200 operations with sizes up to 4 KiB. Distinct by case text; all are non-trivial." % (L, L, nrand))
     ck.partial.append("memory safety of the unsafe blocks is not expressible in the model; guard bytes around the fixed slice are observed after every operation (Miri is not run by this check)")
     ck.assumptions.append("allocation in VecOutputTarget succeeds (allocator is an oracle); reservations are those handed out by the same target")
